@@ -680,8 +680,6 @@ class rrule(rrulebase):
             if isinstance(bysecond, integer_types):
                 bysecond = (bysecond,)
 
-            self._bysecond = set(bysecond)
-
             if freq == SECONDLY:
                 self._bysecond = self.__construct_byset(start=dtstart.second,
                                                         byxxx=bysecond,
